@@ -8,7 +8,7 @@ PROP = "C09"
 GEN = ["Handlers", "Wrappers"]
 VO = ["Properties/C09.vo", "Extract/D_Client.vo"]
 MODULE = "Properties.C09"
-THEOREMS = ["c09_used_zero", "c09_failed_discarded", "c09_checkout", "c09_never_exhausted", "c09_release", "c09_reuse", "c09_failed_retired",
+THEOREMS = ["c09_used_zero", "c09_used_zero_src", "c09_failed_discarded", "c09_checkout", "c09_never_exhausted", "c09_release", "c09_reuse", "c09_failed_retired",
             "c09_never_again"]
 DRIVER = "D_Client"
 TECHNIQUE = ("Coq proof about a hand-written Gallina model of ObjectPool (sequential) and the PooledClient wrappers over the "
@@ -53,7 +53,7 @@ def cases(ctx):
                         for ign in (False, True):
                             out.append((dict(base, ignore_exc=ign), (size, idle), ops, rbo, fault_at, where, gaps))
     if ctx.quick:
-        out = out[::5]
+        out = out[::2]
     return out
 
 
@@ -153,8 +153,8 @@ def search(ctx):
     # every PooledClient method x every way its call can fail: the connection it failed on is closed and never handed out again
     m = 0
     for op, rep in METHOD_OPS:
-        for kind in ("send", "recv", "error_line", "bad_reply"):
-            if kind in ("error_line", "bad_reply") and rep is None:
+        for kind in ("send", "recv", "error_line", "bad_reply", "interrupt_send", "interrupt_recv"):
+            if kind in ("error_line", "bad_reply", "recv", "interrupt_recv") and rep is None:
                 continue
             m += 1
             why, detail = method_failure(op, rep, kind)
@@ -172,7 +172,7 @@ METHOD_OPS = [((0, 0, b"k", b"v", 0, False, None), b"STORED\r\n"), ((0, 1, b"k",
               ((3, b"k", None), b"END\r\n"), ((4, b"k", None, None), b"END\r\n"), ((5, b"k", 5, None), b"END\r\n"), ((6, b"k", 5, None, None), b"END\r\n"),
               ((7, False, [b"a", b"b"]), b"END\r\n"), ((8, False, [b"a", b"b"]), b"END\r\n"), ((9, b"k", False), b"DELETED\r\n"),
               ((10, False, [b"a", b"b"], False), b"DELETED\r\nDELETED\r\n"), ((11, b"k", 1, False), b"6\r\n"), ((12, b"k", 1, False), b"4\r\n"),
-              ((13, b"k", 5, False), b"TOUCHED\r\n"), ((14, 0, False), b"OK\r\n"), ((15,), b"VERSION 1\r\n")]
+              ((13, b"k", 5, False), b"TOUCHED\r\n"), ((14, 0, False), b"OK\r\n"), ((15,), b"VERSION 1\r\n"), ((17,), None)]
 
 
 def method_failure(op, rep, kind):
@@ -188,6 +188,10 @@ def method_failure(op, rep, kind):
         sc = [0] * nsock + [(TAGS["ConnectionResetError"],)]
     elif kind == "recv":
         ch = [1 << 20] * nrecv + [(TAGS["SocketTimeout"],)]
+    elif kind == "interrupt_send":      # "once each call has returned or raised": also when what is raised is not an ordinary error
+        sc = [0] * nsock + [(TAGS["KeyboardInterrupt"],)]
+    elif kind == "interrupt_recv":
+        ch = [1 << 20] * nrecv + [(TAGS["GreenletTimeout"],)]
     elif kind == "error_line":
         reply = b"SERVER_ERROR out of memory\r\n"
     else:
@@ -196,6 +200,8 @@ def method_failure(op, rep, kind):
     results, world, pool = r[0], r[5], r[6]
     if results[1][0][0] != "e":
         return None, None            # this failure kind does not make this method fail (e.g. delete_many ignores unknown lines)
+    if results[1][1] != 0:
+        return "%r failed (%s) and %d connection(s) are still checked out after the call" % (op, results[1][0][1], results[1][1]), repr(results)
     used_by = {sid for sid, _ in world.sent_by_op.get(1, [])} or {sid for sid, _ in world.sent_by_op.get(0, [])}
     for sid in used_by:
         sk = [x for x in world.socks if x.sid == sid]
